@@ -47,7 +47,8 @@ OPTS = {
             'IDformat': '{:03d}', 'JSONdict': 'map.json'},
     'noyaml': {'YAMLdef': None},
 }
-CALCS_Q = [('I', 'FCC_OT', 0), ('I', 'FCC_OT', 2), ('I', 'HCP_OT', 1), ('V', 'FCC', 0), ('V', 'BCC', 0), ('V', 'HCP', 0), ('V', 'B2', 0)]
+CALCS_Q = [('I', 'FCC_OT', 0), ('I', 'FCC_OT', 2), ('I', 'HCP_OT', 1), ('V', 'FCC', 0), ('V', 'BCC', 0), ('V', 'HCP', 0), ('V', 'B2', 0),
+           ('I', 'OT_FCC', 1), ('I', 'B2AB_O', 0), ('I', 'B2AOB', 0), ('V', 'B2AB', 0)]
 CALCS_T = CALCS_Q + [('I', 'FCC_OT', 1), ('I', 'HCP_OT', 0), ('I', 'BCC_O', 0), ('V', 'FCC', 1), ('V', 'HCP15', 0)]
 MATS_Q = ['1I', '2I', 'd2hnf', '3I']
 MATS_T = MATS_Q + ['hex6', 'cub2', '4I']
